@@ -7,7 +7,8 @@ From MJ Require Import Common.Base.
 From MJ Require Import C20.Model C20.Spec.
 
 Definition dec_ret (g v : Z) : ret :=
-  if g =? 0 then RNone else if g =? -1 then RErr else if g =? -2 then RReq else REnv {| gen := g; born := v |}.
+  if g =? 0 then RNone else if g =? -1 then RErr else if g =? -2 then RReq else if g =? -3 then RPanic
+  else REnv {| gen := g; born := v |}.
 
 Definition dec_label (t p a : Z) : option label :=
   match p with
@@ -21,9 +22,10 @@ Definition dec_label (t p a : Z) : option label :=
   | 8 => Some (LCreEnd t (negb (a =? 0)))
   | 9 => Some (LAcqRestore t)
   | 10 => Some (LDrop t)
-  | 11 => Some (LFreshEnd t (a mod 4 =? 2))
-  | 12 => Some (LOnCbEnd t)
+  | 11 => Some (LFreshEnd t (if a mod 4 =? 2 then CbTrue else if a mod 4 =? 3 then CbPanic else CbFalse))
+  | 12 => Some (LOnCbEnd t (a =? 1))
   | 13 => Some (LBlocked t)
+  | 14 => Some (LCrePanic t)
   | _ => None
   end.
 
@@ -51,7 +53,7 @@ Definition dec_cfg (fa fr oc : Z) : cfg :=
   {| fast := negb (fa =? 0); fresh_cb := negb (fr =? 0); on_cb := negb (oc =? 0); restore := true |}.
 
 Definition enc_ret (r : ret) : list Z :=
-  match r with RNone => [0; 0] | RErr => [-1; 0] | RReq => [-2; 0] | REnv e => [gen e; born e] end.
+  match r with RNone => [0; 0] | RErr => [-1; 0] | RReq => [-2; 0] | RPanic => [-3; 0] | REnv e => [gen e; born e] end.
 
 (* is the observed trace a run of the model (the code as fixed)?
    0 creator_calls clears notifies reqs flag   accepted, with the model's final counters
